@@ -799,6 +799,37 @@ def concretise_chars(sym: list[str], cuts: list[int], extra: dict) -> dict:
             "lines": [t.encode() for t in texts], "chunks": chunks}
 
 
+def life_stage(chk: Check, tier: str, stats: dict, only: list | None = None) -> list:
+    """TLC on TransportLife (signature polling, echo, connection_made once with the right id, delivery whatever the
+    phase); systematic schedules on the real PortTransport; TLC folds every recorded execution."""
+    for cfg in ("MC_TransportLife.cfg", "MC_TransportLife_ro.cfg"):
+        r = tlc.run_tlc("MC_TransportLife", cfg, workers=2, timeout=300)
+        if not r.ok:
+            chk.model_drift(f"TLC: {cfg} violates {r.violated or r.errors[:2]}")
+        stats.setdefault("life_mc", []).append({"cfg": cfg, "distinct": r.distinct, "generated": r.states, "violated": r.violated})
+    scheds = only if only is not None else rx.life_schedules(tier != "quick")
+
+    async def go() -> list[dict]:
+        return [await rx.run_life(st, snd) for st, snd in scheds]
+
+    items, _loop = vloop.run(go)
+    res = tlc.validate_batch("TransportLifeTrace", items, workers=2, timeout=600)
+    stats["life"] = {"schedules": len(items), "events": sum(len(i["ev"]) for i in items), "rejected": len(res["rejects"])}
+    seen = set()
+    for idx, fails in res["rejects"]:
+        for line, cls in fails:
+            if cls in seen:
+                continue
+            seen.add(cls)
+            what = (f"{cls} at event {line} of the connection-phase schedule {scheds[idx][0]} "
+                    f"(sending={scheds[idx][1]}): {items[idx]['ev']}")
+            if cls.startswith("b:"):
+                chk.violation(cls + ":connection-phase", what, {"stage": "life", "steps": scheds[idx][0], "sending": scheds[idx][1]})
+            else:
+                chk.model_drift(what[:600])
+    return res["rejects"]
+
+
 def main(tier: str, replay: str | None) -> None:
     fakes.quiet_logging()
     if replay:
@@ -863,6 +894,11 @@ def main(tier: str, replay: str | None) -> None:
         for r in (precs[len(precs) // 3], precs[-1]):
             samples.append({"kind": "port", "sym": r["item"]["sym"][:40], "cuts": r["meta"]["replay"]["cuts"][:40],
                             "iso": r["item"]["iso"]})
+
+        # ---- B2: the transport's connection phase (spec/TransportLife.tla) ---------------------
+        t0 = time.time()
+        life_stage(chk, tier, stats)
+        stats["t_life"] = round(time.time() - t0, 1)
 
         # ---- C: packet log / packet dict replays; D: MQTT ----------------------------------
         t0 = time.time()
@@ -946,6 +982,7 @@ def main(tier: str, replay: str | None) -> None:
             "strings_through_constructors": stats.get("lines", 0),
             "string_sources": stats.get("line_sources", {}),
             "port_traces": stats.get("port_traces", 0),
+            "connection_phase": {"model": stats.get("life_mc", []), "real_executions": stats.get("life", {})},
             "file_dict_mqtt_traces": stats.get("file_dict_mqtt_traces", 0),
             "traces_rejected": stats.get("rejected", 0),
             "escaping_line_classes_found": stats.get("escapers", {}),
@@ -972,6 +1009,11 @@ def do_replay(path: str) -> None:
     print(f"replaying {obj.get('key', '?')}: {obj.get('what', '')}")
     tmp = tempfile.mkdtemp(prefix="c01r_")
     try:
+        if rp["stage"] == "life":
+            chk = Check(PID, "quick", "model_checking")
+            rej = life_stage(chk, "quick", {}, only=[(rp["steps"], bool(rp["sending"]))])
+            print("TLC verdict:", rej or "accepted")
+            raise SystemExit(1 if any(c.startswith("b:") for _i, f in rej for _l, c in f) else 0)
         if rp["stage"] == "line":
             recs = line_items(rp["lines"], 1)
             for r in recs:
